@@ -9,6 +9,13 @@ pub const IDENTS: &[&str] = &[
     "a", "b", "x", "foo", "Bar", "inout2", "in_", "Listing", "Strings", "int_", "interfaceX",
     "voidx", "_", "__x", "A1", "forx", "trueish", "MY_CONST", "Mapx", "List1", "onewayy",
     "constant", "parcelables", "enum_", "importx", "packages", "outx", "CharSequence2", "y", "z9",
+    // words that are keywords elsewhere (Rust, Kotlin, Python, C++, Java) but plain identifiers here
+    "type", "match", "ref", "self", "use", "mod", "move", "crate", "final", "trait", "dyn", "where", "as", "fn", "let", "mut", "impl",
+    "pub", "struct", "loop", "async", "await", "yield", "abstract", "extends", "implements", "native", "super", "null", "var", "val",
+    "def", "object", "string", "list", "map", "override", "virtual", "template", "union", "unsigned", "namespace", "using", "delete",
+    "operator", "typedef", "inline", "extern", "auto", "bool", "throws", "synchronized", "transient", "instanceof", "None", "and", "not",
+    // case pairs
+    "X", "Type", "Foo", "foo", "A", "B",
 ];
 
 pub const PKG_SEGS: &[&str] = &["p", "q", "com", "bwa", "in_", "a1", "other", "os_", "x"];
@@ -128,7 +135,21 @@ pub fn annos(s: &mut Src, cfg: &GenCfg) -> Vec<AnnoM> {
                 let mut keys: Vec<String> = Vec::new();
                 let mut ps = Vec::new();
                 for _ in 0..k {
-                    let key = ident(s);
+                    let mut key = ident(s);
+                    // sometimes a key that differs from the previous one only by case
+                    if let Some(prev) = keys.last() {
+                        if s.chance(1, 4) {
+                            let p: &String = prev;
+                            let flipped: String = p
+                                .chars()
+                                .enumerate()
+                                .map(|(i, c)| if i == 0 { if c.is_lowercase() { c.to_ascii_uppercase() } else { c.to_ascii_lowercase() } } else { c })
+                                .collect();
+                            if crate::tok::classify_word(&flipped) == crate::tok::K::Ident {
+                                key = flipped;
+                            }
+                        }
+                    }
                     if keys.contains(&key) {
                         continue; // duplicate keys are not generated
                     }
@@ -497,7 +518,7 @@ pub fn plain_gaps(ntoks: usize) -> Vec<String> {
 // Projects over a small adversarial name space
 
 pub const U_PKGS: &[&[&str]] = &[&["p"], &["p", "q"], &["q"], &["other", "p"], &["android", "os"]];
-pub const U_NAMES: &[&str] = &["Foo", "XFoo", "FooX", "Bar", "IBinder", "ParcelFileDescriptor", "Baz"];
+pub const U_NAMES: &[&str] = &["Foo", "XFoo", "FooX", "FooFoo", "Bar", "IBinder", "ParcelFileDescriptor", "Baz"];
 pub const BUILTIN_QNAMES: &[&str] = &[
     "android.os.IBinder",
     "java.os.FileDescriptor",
